@@ -274,8 +274,14 @@ func genEqPair(t *rapid.T, optSets []string, withPrecision bool) PairCase {
 		b = gen.DupSome(t, a, 30)
 	case mode < 50:
 		b = gen.DupSome(t, gen.Permute(t, a, 70), 30)
-	case mode < 65:
+	case mode < 60:
 		b = gen.Edit(t, a, p)
+	case mode < 68:
+		// the same keys and the same values, differently paired
+		b = gen.SwapValues(t, a, 60)
+		if gen.Chance(t, "andPermute", 50) {
+			b = gen.Permute(t, b, 60)
+		}
 	case mode < 85:
 		b = swapOneConfusable(t, a)
 	case mode < 92:
@@ -364,3 +370,46 @@ func TestC04Exhaustive(t *testing.T) {
 		}
 	}
 }
+
+// ---- documents obtained from Patch are documents like any other
+
+func checkC04Patched(c PatchedCase, r *rec.Rec) error {
+	mk, pv, err := patchedDoc(c)
+	if err != nil {
+		r.Class("skipped:" + err.Error())
+		return nil
+	}
+	bv, err := val.Parse(c.B)
+	if err != nil {
+		return fmt.Errorf("bad case: %v", err)
+	}
+	if containsMagic(pv, bv) {
+		r.Class("skipped:magic-number")
+		return nil
+	}
+	opts := jdx.Options(c.Opts)
+	want := val.Equal(pv, bv, jdx.Reading(c.Opts))
+	got := mk().Equals(jdx.NodeText(c.B), opts...)
+	back := jdx.NodeText(c.B).Equals(mk(), opts...)
+	if got != want || back != want {
+		return rec.Violated("a' = Patch(%s, diff to %s under %s) = %s; under %s Equals(a', %s) = %v and Equals(b, a') = %v, the values are %s", c.A, c.X, c.PatchOpts, val.JSON(pv), c.Opts, c.B, got, back, map[bool]string{true: "the same", false: "different"}[want])
+	}
+	if !mk().Equals(mk(), opts...) {
+		return rec.Violated("Equals is not reflexive on the patched document %s under %s", val.JSON(pv), c.Opts)
+	}
+	cls := []string{"opts=" + c.Opts, "patch-opts=" + c.PatchOpts}
+	if want {
+		cls = append(cls, "equal")
+	} else {
+		cls = append(cls, "unequal")
+	}
+	r.Case(fmt.Sprintf("%v", c), c.A != c.X && c.Opts != c.PatchOpts, cls...)
+	if c.A != c.X && c.Opts != c.PatchOpts {
+		r.Sample(c)
+	}
+	return nil
+}
+
+func init() { Register("C04", "patched", checkC04Patched) }
+
+func TestC04Patched(t *testing.T) { RunRandom(t, "C04", "patched", genPatchedCase, checkC04Patched) }
